@@ -23,15 +23,19 @@ MANIFEST = dict(
          "node's State is assembled from its upstream states and how its jobs index into upstream results "
          "(other_states wiring, _complete_prev_state in both passes, _add_state_history, [prev, current] product, "
          "keys/states_ind, combiner -> states_ind_final, prepare_inputs/inputs_ind, _split_task, "
-         "LazyOutField._get_value). C03_partial: for every workflow of the modelled fragment (any number of nodes, any "
-         "list lengths, any own splitters and combiners) in the computable class c03_aligned (inputs of every node carry "
-         "separate origins or are exactly a state and its relay) the model's outputs equal the nested-loop (origin "
-         "coordinate) evaluation; corollaries C03_chain, C03_fanin_independent (graph classes), C03_shared_direct. "
-         "C03_refuted: the full statement is false - the diamond multiplies a shared origin (F03). The fragment is "
-         "python-task nodes, one output, own splitter = outer product of own fields, combiner = any axes of the node; "
-         "inner splitters, explicit _Node references, re-splitting of lazy outputs and nested workflows are not "
-         "modelled. The model is tied to the code by running generated workflows with injective tagging tasks through "
-         "the debug worker and evaluating model and spec on the same workflow descriptions inside Coq (vm_compute).",
+         "LazyOutField._get_value). C03_partial2: for every workflow of the modelled fragment (any number of nodes, any "
+         "list lengths) in the computable class c03_class2 the model's observable outputs (both outputs of every node) "
+         "equal the nested-loop (origin coordinate) evaluation, and zipped fields of different length are rejected. "
+         "Fragment: python-task or nested-workflow nodes (a nested workflow is an opaque node), two outputs per node, "
+         "every input a constant / own split list / either output of an earlier node, own splitter = outer product of "
+         "inner (zip) groups of own fields, combiner = any fields of the node's splitter. Inside the class: inputs of "
+         "every node carry separate origins or are exactly a state and its relay; zipped fields have equal length; the "
+         "combiner names whole zip groups; no node with a combiner keeps a zip group open. Outside the class (compared "
+         "with the spec only, failures are known findings F03 shared origin, F03y partly named zip group, F03z inherited "
+         "F02): everything else. C03_refuted: the full statement is false (diamond, F03). Not modelled: explicit _Node "
+         "references / inner pairing of two upstream states, re-splitting of lazy outputs, container_ndim. The model is "
+         "tied to the code by running generated workflows with injective tagging tasks through the debug worker (a share "
+         "under the cf worker) and evaluating model and spec on the same descriptions inside Coq (vm_compute).",
     note="Trusted: Coq kernel + vm_compute; the hand-written model (leaf sequences instead of RPN for all-outer "
          "splitters; State.splits / remove_inp_from_splitter_rpn / rpn2splitter on such splitters modelled by their "
          "result); the tagging task and canonicaliser; correspondence is differential testing.",
@@ -39,7 +43,7 @@ MANIFEST = dict(
               "+ model/impl/spec correspondence via generated cases.v",
     design="§8 Group A / C03",
 )
-TIE_NAME = "Model.StateWf.model_run vs pydra Submitter(worker='debug') on the generated workflow (all node outputs)"
+TIE_NAME = "Model.StateWf.model_run2 vs pydra Submitter(worker='debug') on the generated workflow (all node outputs)"
 TRUSTED = [
     "Model/StateWf.v: hand-written model of Node._get_upstream_states/_set_state, Workflow._create_graph -> "
     "State.update_connections, _complete_prev_state, _remove_repeated, _add_state_history, prepare_states_ind, "
@@ -49,22 +53,29 @@ TRUSTED = [
     "product / leaf deletion); itertools.product nesting + flatten = concatenation of index tuples; dict(zip()) = "
     "association list, last value wins; exceptions collapse to one error outcome; State.inputs merging = one lookup table",
     "the python tagging task T(nid,a,b,c) -> ('T',nid,a,b,c) and the canonicaliser that turns tuples/lists into VTag/VList",
-    "not modelled: inner (scalar) splitters, explicit '_Node' splitter references, splitting over a lazy output, "
-    "nested workflows, container_ndim, StateArray typing, workers other than 'debug'",
+    "modelled, not verified (second pass): a zip group is represented by its first field (leader): the other fields "
+    "carry the same index by construction; combiner closure (combiner_all) = replacing names by leaders (normalize); "
+    "per-job output-field selection commutes with list building (outsel); a nested-workflow node is an opaque node",
+    "not modelled: explicit '_Node' splitter references (incl. inner pairing of two upstream states), splitting over a "
+    "lazy output, container_ndim, StateArray typing; remove_inp_from_splitter_rpn's defect on open inner pairs (F03z)",
 ]
 ASSUMPTIONS = [
-    "nodes are python tasks with <= 3 inputs and one output; own splitter is an outer product of own fields",
+    "nodes are python tasks or nested workflows with <= 3 inputs and two outputs; own splitter is an outer product of zip groups of own fields",
     "node names N0..N9 (State.current_combiner tests `name in comb` by substring)",
 ]
-RULE = ("generated workflow descriptions (2-5 nodes; per field: constant / own split list of length 0-3 / output of an "
-        "earlier node; own outer splitter in random field order; random combiner over the node's axes; plus shape "
-        "families chain, fan-in, relay, diamond, deep-share), distinct by their JSON; non-trivial = some node with a "
+RULE = ("generated workflow descriptions (2-5 nodes; per field: constant / own split list of length 0-3 / either output "
+        "of an earlier node; own splitter = outer product of zip groups in random order, 10% of zipped fields with "
+        "unequal length; random combiner over the node's axes naming whole zip groups (80%) or single fields; 15% "
+        "nested-workflow nodes; 1/16 of the cases under the cf worker; plus shape families chain, fan-in, relay, "
+        "diamond, deep-share), distinct by their JSON; non-trivial = some node with a "
         "state consumes the output of a node with open axes")
 
 FN = "abc"
 MAXJOBS = 48
 FINDINGS = {
     "F03": "share",
+    "F03y": "comb_closed",
+    "F03z": "zipcomb",
 }
 
 
@@ -75,35 +86,45 @@ from pydra.compose import python, workflow
 from pydra.engine.submitter import Submitter
 FN = "abc"
 
-@python.define
-def T(nid: int, a: ty.Any = None, b: ty.Any = None, c: ty.Any = None) -> ty.Any:
-    return ("T", nid, a, b, c)
+@python.define(outputs=["out0", "out1"])
+def T(nid: int, a: ty.Any = None, b: ty.Any = None, c: ty.Any = None) -> tuple[ty.Any, ty.Any]:
+    return ("T", nid, 0, a, b, c), ("T", nid, 1, a, b, c)
+
+# a nested workflow used as a node: opaque, its outputs are the same function of its inputs
+@workflow.define(outputs=["out0", "out1"])
+def NW(nid: int, a: ty.Any = None, b: ty.Any = None, c: ty.Any = None) -> tuple[ty.Any, ty.Any]:
+    t = workflow.add(T(nid=nid, a=a, b=b, c=c), name="inner")
+    return t.out0, t.out1
 
 def build(case):
     nodes = case["nodes"]
-    @workflow.define(outputs=["o%d" % i for i in range(len(nodes))])
+    @workflow.define(outputs=["o%d_%d" % (i, o) for i in range(len(nodes)) for o in (0, 1)])
     def W(specstr: str):
         lz = []
         for i, nd in enumerate(nodes):
             kw, sp = {"nid": i}, {}
-            for f, (kind, v) in enumerate(nd["fields"]):
+            for f, b in enumerate(nd["fields"]):
+                kind, v = b[0], b[1]
                 if kind == "const": kw[FN[f]] = v
                 elif kind == "split": sp[FN[f]] = list(v)
-                else: kw[FN[f]] = lz[v].out
-            t = T(**kw)
+                else: kw[FN[f]] = getattr(lz[v], "out%d" % (b[2] if len(b) > 2 else 0))
+            t = (NW if nd.get("nested") else T)(**kw)
             if nd["split"]:
-                spl = [FN[f] for f in nd["split"]]
-                t = t.split(spl[0] if len(spl) == 1 else spl, **sp)
+                groups = []
+                for l in nd["split"]:
+                    g = [FN[l]] + [FN[f] for f, l2 in nd.get("zip", []) if l2 == l]
+                    groups.append(g[0] if len(g) == 1 else tuple(g))
+                t = t.split(groups[0] if len(groups) == 1 else groups, **sp)
             if nd["comb"]:
                 t = t.combine([FN[f] if n == i else "N%d.%s" % (n, FN[f]) for n, f in nd["comb"]])
             lz.append(workflow.add(t, name="N%d" % i))
-        return tuple(l.out for l in lz)
+        return tuple(getattr(l, "out%d" % o) for l in lz for o in (0, 1))
     return W(specstr=json.dumps(case, sort_keys=True))
 
 def canon(v, case):
-    if isinstance(v, tuple) and len(v) == 5 and v[0] == "T":
+    if isinstance(v, tuple) and len(v) == 6 and v[0] == "T":
         nf = len(case["nodes"][v[1]]["fields"])
-        return ["T", v[1]] + [canon(x, case) for x in v[2:2 + nf]]
+        return ["T", v[1], v[2]] + [canon(x, case) for x in v[3:3 + nf]]
     if isinstance(v, (list, tuple)):
         return ["L"] + [canon(x, case) for x in v]
     if isinstance(v, bool) or not isinstance(v, int):
@@ -113,22 +134,26 @@ def canon(v, case):
 def run(case, root):
     try:
         wf = build(case)
-        with Submitter(worker="debug", cache_root=root) as sub:
+        kw = dict(worker="cf", n_procs=2) if case.get("worker") == "cf" else dict(worker="debug")
+        with Submitter(cache_root=root, **kw) as sub:
             res = sub(wf, raise_errors=True)
+        if getattr(res, "errored", False):
+            return {"exc": "RunErrored", "msg": "result.errored"}
         o = res.outputs
-        return {"out": [canon(getattr(o, "o%d" % i), case) for i in range(len(case["nodes"]))]}
+        return {"out": [canon(getattr(o, "o%d_%d" % (i, k)), case) for i in range(len(case["nodes"])) for k in (0, 1)]}
     except Exception as e:
         return {"exc": type(e).__name__, "msg": str(e)[:160]}
 
-cases = json.load(sys.stdin)
-res = []
-for k, case in enumerate(cases):
-    d = tempfile.mkdtemp(prefix="verif-c03-")
-    try:
-        res.append(run(case, d))
-    finally:
-        shutil.rmtree(d, ignore_errors=True)
-json.dump(res, sys.stdout)
+if __name__ == "__main__":
+    cases = json.load(sys.stdin)
+    res = []
+    for k, case in enumerate(cases):
+        d = tempfile.mkdtemp(prefix="verif-c03-")
+        try:
+            res.append(run(case, d))
+        finally:
+            shutil.rmtree(d, ignore_errors=True)
+    json.dump(res, sys.stdout)
 '''
 
 
@@ -171,55 +196,87 @@ def est_jobs(case):
     fin, tot = [], []
     for nd in case["nodes"]:
         ups = []
-        for kind, v in nd["fields"]:
-            if kind == "up" and v not in ups:
-                ups.append(v)
+        for b in nd["fields"]:
+            if b[0] == "up" and b[1] not in ups:
+                ups.append(b[1])
         n = 1
         for u in ups:
             n *= max(fin[u], 1)
         own = 1
-        for kind, v in nd["fields"]:
-            if kind == "split":
-                own *= len(v)
+        for l in nd["split"]:
+            own *= len(nd["fields"][l][1])
         tot.append(n * own)
         fin.append(n * max(own, 1))
     return max(tot) if tot else 0
 
 
+def leader(nd, f):
+    for g, l in nd.get("zip", []):
+        if g == f:
+            return l
+    return f
+
+
 def spec_axes(case):
+    """axes (zip-group leaders) and open axes per node, as the spec computes them"""
     axes, faxes = [], []
-    for i, nd in enumerate(case["nodes"]):
+    nodes = case["nodes"]
+    for i, nd in enumerate(nodes):
         ax = []
-        for kind, v in nd["fields"]:
-            if kind == "up":
-                for k in faxes[v]:
+        for b in nd["fields"]:
+            if b[0] == "up":
+                for k in faxes[b[1]]:
                     if k not in ax:
                         ax.append(k)
         ax += [[i, f] for f in nd["split"]]
         axes.append(ax)
-        faxes.append([k for k in ax if k not in nd["comb"]])
+        comb = [[k[0], leader(nodes[k[0]], k[1])] for k in nd["comb"]]
+        faxes.append([k for k in ax if k not in comb])
     return axes, faxes
 
 
-def finish(nodes, rng, p_comb):
-    """choose splitter order and combiners for bare field lists"""
+def finish(nodes, rng, p_comb, p_zip=0.35, p_nested=0.15):
+    """choose zip groups, splitter order, output selectors, nested-workflow nodes and combiners for bare field lists"""
     out = []
     faxes = []
     for i, fields in enumerate(nodes):
-        split = [f for f, b in enumerate(fields) if b[0] == "split"]
-        rng.shuffle(split)
+        fields = [list(b) for b in fields]
+        sfields = [f for f, b in enumerate(fields) if b[0] == "split"]
+        rng.shuffle(sfields)
+        split, zips = [], []
+        for f in sfields:
+            if split and rng.random() < p_zip:
+                l = rng.choice(split)
+                zips.append([f, l])
+                if rng.random() < 0.9:          # equal shape; otherwise the run must be rejected
+                    n = len(fields[l][1])
+                    fields[f][1] = [rng.randrange(100) for _ in range(n)]
+            else:
+                split.append(f)
+        for b in fields:
+            if b[0] == "up" and len(b) == 2:
+                b.append(rng.choice([0, 0, 1]))
         ax = []
-        for kind, v in fields:
-            if kind == "up":
-                for k in faxes[v]:
+        for b in fields:
+            if b[0] == "up":
+                for k in faxes[b[1]]:
                     if k not in ax:
                         ax.append(k)
         ax += [[i, f] for f in split]
-        comb = []
+        comb, ccomb = [], []
         if ax and rng.random() < p_comb:
-            comb = rng.sample(ax, rng.randint(1, len(ax)))
-        faxes.append([k for k in ax if k not in comb])
-        out.append(dict(fields=fields, split=split, comb=comb))
+            ccomb = rng.sample(ax, rng.randint(1, len(ax)))
+            for k in ccomb:
+                # name the whole zip group (any order); sometimes only one of its fields (known finding F03y)
+                fol = [[k[0], g] for g, l in out[k[0]]["zip"] if l == k[1]] if k[0] < i else [[i, g] for g, l in zips if l == k[1]]
+                grp = [k] + fol
+                if rng.random() < 0.8:
+                    rng.shuffle(grp)
+                    comb.extend(grp)
+                else:
+                    comb.append(rng.choice(grp))
+        faxes.append([k for k in ax if k not in ccomb])
+        out.append(dict(fields=fields, split=split, zip=zips, comb=comb, nested=rng.random() < p_nested))
     return dict(nodes=out)
 
 
@@ -336,19 +393,19 @@ def gen_case(rng):
 
 def nontrivial(case):
     _, faxes = spec_axes(case)
-    return any(kind == "up" and faxes[v] for nd in case["nodes"] for kind, v in nd["fields"])
+    return any(b[0] == "up" and faxes[b[1]] for nd in case["nodes"] for b in nd["fields"])
 
 
 def shape_of(case):
     axes, faxes = spec_axes(case)
     n = len(case["nodes"])
-    fanin = any(len({v for kind, v in nd["fields"] if kind == "up" and faxes[v]}) >= 2 for nd in case["nodes"])
+    fanin = any(len({b[1] for b in nd["fields"] if b[0] == "up" and faxes[b[1]]}) >= 2 for nd in case["nodes"])
     return n, fanin
 
 
 # ------------------------------------------------------------------------------------------- Gallina literals
 def enc_binding(b):
-    kind, v = b
+    kind, v = b[0], b[1]
     if kind == "const":
         return "BConst %s" % coqio.z(v)
     if kind == "split":
@@ -359,9 +416,11 @@ def enc_binding(b):
 def enc_wf(case):
     nodes = []
     for nd in case["nodes"]:
-        nodes.append("{| n_fields := %s; n_split := %s; n_comb := %s |}" % (
+        nodes.append("{| n_fields := %s; n_split := %s; n_zip := %s; n_osel := %s; n_comb := %s |}" % (
             coqio.lst([enc_binding(b) for b in nd["fields"]]),
             coqio.lst([coqio.nat(f) for f in nd["split"]]),
+            coqio.lst([coqio.pair(coqio.nat(p[0]), coqio.nat(p[1])) for p in nd.get("zip", [])]),
+            coqio.lst([coqio.nat(b[2] if b[0] == "up" and len(b) > 2 else 0) for b in nd["fields"]]),
             coqio.lst([coqio.pair(coqio.nat(k[0]), coqio.nat(k[1])) for k in nd["comb"]])))
     return coqio.lst(nodes)
 
@@ -370,7 +429,7 @@ def enc_val(v):
     if isinstance(v, int):
         return "VInt %s" % coqio.z(v)
     if v[0] == "T":
-        return "VTag %s %s" % (coqio.nat(v[1]), coqio.lst([enc_val(x) for x in v[2:]]))
+        return "VTag %s %s" % (coqio.nat(v[1]), coqio.lst([enc_val(x) for x in v[2:]]))   # v[2] is the output index
     if v[0] == "L":
         return "VList %s" % coqio.lst([enc_val(x) for x in v[1:]])
     return "VTag 4999%nat []%list"          # a value the tagging task cannot produce: never equal to model or spec
@@ -385,26 +444,28 @@ def enc_obs(o):
 EXTRA = """
 Definition obs_eqb (a b : option (list val)) : bool := option_eqb (list_eqb val_eqb) a b.
 Definition case_t := (workflow * option (list val))%type.
-Definition spec_ok (c : case_t) : bool := obs_eqb (snd c) (Some (spec_run (fst c))).
+Definition spec_ok (c : case_t) : bool := obs_eqb (snd c) (spec_run2 (fst c)).
 (* inside the proved class the implementation must behave like the model; outside it (the refuted region) it
-   may behave like the model or like the spec *)
+   may behave like the model or like the spec, and the model is only claimed for combiner-free workflows *)
 Definition tie_ok (c : case_t) : bool :=
   let '(w, o) := c in
-  if c03_aligned w then obs_eqb o (model_run w)
-  else if tie_region w then obs_eqb o (model_run w) || spec_ok c else true.
-Definition out_domain (c : case_t) : bool := negb (c03_aligned (fst c)).
-Definition not_separate (c : case_t) : bool := negb (c03_domain (fst c)).
-Definition not_wf (c : case_t) : bool := wf_ok (fst c).
-Definition cls_share (c : case_t) : bool := share_class (fst c).
-Definition model_is_spec (c : case_t) : bool := obs_eqb (model_run (fst c)) (Some (spec_run (fst c))).
+  if c03_class2 w then obs_eqb o (model_run2 w)
+  else if tie_region w then obs_eqb o (model_run2 w) || spec_ok c else true.
+Definition out_domain (c : case_t) : bool := negb (c03_class2 (fst c)).
+Definition not_wf (c : case_t) : bool := wf_ok (normalize (fst c)).
+Definition cls_share (c : case_t) : bool := share_class (normalize (fst c)).
+Definition cls_zipcomb (c : case_t) : bool := zipcomb_class (normalize (fst c)).
+Definition cls_ziplen (c : case_t) : bool := zip_len_ok (fst c).
+Definition cls_closed (c : case_t) : bool := comb_closed_class (fst c).
+Definition model_is_spec (c : case_t) : bool := obs_eqb (model_run2 (fst c)) (spec_run2 (fst c)).
 """
-CHECKS = {"tie": "tie_ok", "spec": "spec_ok", "in_domain": "out_domain", "separate": "not_separate", "ill_formed": "not_wf",
-          "share": "cls_share", "model_ne_spec": "model_is_spec"}
+CHECKS = {"tie": "tie_ok", "spec": "spec_ok", "in_domain": "out_domain", "ill_formed": "not_wf",
+          "share": "cls_share", "zipcomb": "cls_zipcomb", "ziplen": "cls_ziplen", "comb_closed": "cls_closed", "model_ne_spec": "model_is_spec"}
 
 
 def short(v):
     if isinstance(v, list) and v and v[0] == "T":
-        return "n%d(%s)" % (v[1], ",".join(short(x) for x in v[2:]))
+        return "n%d.%s(%s)" % (v[1], v[2], ",".join(short(x) for x in v[3:]))
     if isinstance(v, list) and v and v[0] == "L":
         return "[" + ",".join(short(x) for x in v[1:]) + "]"
     return repr(v)
@@ -426,7 +487,7 @@ def classify(i, res):
 
 def run(ctx):
     rng = ctx.rng
-    n = ctx.budget(170, 2000)
+    n = ctx.budget(130, 1400)
     cases, seen = [], set()
     corpus = [c["case"] if "case" in c else c for c in ctx.corpus()]
     for c in corpus:
@@ -441,6 +502,9 @@ def run(ctx):
             continue
         seen.add(key)
         cases.append(c)
+    for k, c in enumerate(cases):        # a share of the cases runs under the concurrent-futures worker (outputs only)
+        if k % 16 == 5:
+            c["worker"] = "cf"
     t0 = time.time()
     obs = run_impl(cases, nproc=4 if ctx.tier == "quick" else 6)
     t_impl = time.time() - t0
@@ -454,7 +518,9 @@ def run(ctx):
 
     dist = {"nodes_%d" % k: 0 for k in range(2, 6)}
     dist.update(fan_in=0, with_combiner=0, with_empty_list=0, impl_raised=0, in_proved_class=len(res["in_domain"]))
-    dist["in_separate_origins_class"] = len(res["separate"])
+    dist["zip_shape_mismatch"] = len(res["ziplen"])
+    dist["class_zipcomb_violated"] = len(res["zipcomb"])
+    dist["class_comb_closed_violated"] = len(res["comb_closed"])
     dist["class_share_violated"] = len(res["share"])
     dist["model_differs_from_spec"] = len(res["model_ne_spec"])
     nontriv = 0
@@ -463,7 +529,11 @@ def run(ctx):
         dist["nodes_%d" % min(max(k, 2), 5)] += 1
         dist["fan_in"] += fanin
         dist["with_combiner"] += any(nd["comb"] for nd in c["nodes"])
-        dist["with_empty_list"] += any(kind == "split" and not v for nd in c["nodes"] for kind, v in nd["fields"])
+        dist["with_empty_list"] += any(b[0] == "split" and not b[1] for nd in c["nodes"] for b in nd["fields"])
+        dist["with_inner_splitter"] = dist.get("with_inner_splitter", 0) + any(nd.get("zip") for nd in c["nodes"])
+        dist["with_nested_workflow_node"] = dist.get("with_nested_workflow_node", 0) + any(nd.get("nested") for nd in c["nodes"])
+        dist["with_second_output_consumed"] = dist.get("with_second_output_consumed", 0) + any(b[0] == "up" and len(b) > 2 and b[2] == 1 for nd in c["nodes"] for b in nd["fields"])
+        dist["cf_worker"] = dist.get("cf_worker", 0) + (c.get("worker") == "cf")
         dist["impl_raised"] += "exc" in o
         nontriv += nontrivial(c)
     out = Outcome(evaluations=len(cases), distinct_nontrivial=nontriv, rule=RULE,
@@ -473,7 +543,7 @@ def run(ctx):
                          "proved_class_fraction": round(len(res["in_domain"]) / max(len(cases), 1), 3)})
 
     # model / spec values of the failing cases, printed by one coqc run
-    want = [(i, "spec_run") for i in sorted(res["spec"])[:60]] + [(i, "model_run") for i in sorted(res["tie"])[:20]]
+    want = [(i, "spec_run2") for i in sorted(res["spec"])[:60]] + [(i, "model_run2") for i in sorted(res["tie"])[:20]]
     vals = {}
     if want:
         try:
@@ -486,10 +556,10 @@ def run(ctx):
         in_dom = i in res["in_domain"]
         note = ("implementation differs from the nested-loop evaluation" +
                 (" inside the proved class" if in_dom else " (input class of %s)" % fid if fid else ""))
-        out.failures.append(Failure(case=cases[i], observed=show_obs(obs[i]), expected=vals.get((i, "spec_run"), "(not printed)"),
+        out.failures.append(Failure(case=cases[i], observed=show_obs(obs[i]), expected=vals.get((i, "spec_run2"), "(not printed)"),
                                     kind="spec", finding=None if in_dom else fid, note=note))
     for i in sorted(res["tie"])[:20]:
-        out.failures.append(Failure(case=cases[i], observed=show_obs(obs[i]), expected=vals.get((i, "model_run")),
+        out.failures.append(Failure(case=cases[i], observed=show_obs(obs[i]), expected=vals.get((i, "model_run2")),
                                     kind="tie", note="model/implementation" +
                                     (" inside the proved class" if i in res["in_domain"] else " outside the proved class")))
     return out
@@ -501,11 +571,11 @@ def replay(ctx, payload):
     print("workflow      :", json.dumps(case))
     print("implementation:", show_obs(o))
     vals = coqio.eval_terms(ctx.scratch, "replay", IMPORTS,
-                            ["model_run %s" % enc_wf(case), "spec_run %s" % enc_wf(case),
-                             "(c03_aligned %s, share_class %s)" % ((enc_wf(case),) * 2)])
+                            ["model_run2 %s" % enc_wf(case), "spec_run2 %s" % enc_wf(case),
+                             "(c03_class2 %s, share_class (normalize %s), zipcomb_class (normalize %s), zip_len_ok %s)" % ((enc_wf(case),) * 4)])
     print("model         :", vals[0])
     print("spec          :", vals[1])
-    print("(in proved class, sharing ok):", vals[2])
+    print("(in proved class, sharing ok, no open zip group under a combiner, zip shapes equal):", vals[2])
 
 
 if __name__ == "__main__":
